@@ -81,10 +81,30 @@ theorem prepared_class_follows_apiConfig (a : ApiConfigSpec) :
 theorem request_of_reconcile {enc : JVal → String} {defNs : String} {cmp : JVal → JVal → Bool} {pp : Bool}
     {rf : Rf} {owner : Owner} {stored : Option JVal} {req : Request}
     (h : (reconcile enc defNs cmp pp rf owner stored).request = some req) :
-    (reconcileKrm enc defNs cmp rf owner stored).request = some req := by
-  unfold reconcile at h
-  cases pp <;> simp at h
-  exact h
+    (reconcileKrm enc defNs cmp rf owner stored).request = some req := Rf.request_of_reconcile h
+
+/-- a namespaced kind whose `apiConfig.namespace` evaluates to nothing (`""`, null, missing) is
+    never sent anywhere: no request, no API access at all, PermFail — whatever namespace the
+    inline resource, a template or an overlay names -/
+theorem namespaced_without_namespace_touches_nothing (enc : JVal → String) (defNs : String)
+    (cmp : JVal → JVal → Bool) (pp : Bool) (rf : Rf) (owner : Owner) (stored : Option JVal)
+    (hn : rf.api.namespaced = true) (hns : rf.ns = none) :
+    (reconcile enc defNs cmp pp rf owner stored).request = none ∧
+    (reconcile enc defNs cmp pp rf owner stored).action = .noApiAtAll ∧
+    (pp = true → (reconcile enc defNs cmp pp rf owner stored).outcome = some .permFail) := by
+  unfold reconcile
+  cases pp <;> simp [hn, hns]
+
+/-- so every request of a namespaced function is made for a namespace apiConfig evaluated to -/
+theorem request_implies_namespace {enc : JVal → String} {defNs : String} {cmp : JVal → JVal → Bool} {pp : Bool}
+    {rf : Rf} {owner : Owner} {stored : Option JVal} {req : Request}
+    (h : (reconcile enc defNs cmp pp rf owner stored).request = some req) (hn : rf.api.namespaced = true) :
+    ∃ n, rf.ns = some n := by
+  cases hns : rf.ns with
+  | some n => exact ⟨n, rfl⟩
+  | none =>
+    have := (namespaced_without_namespace_touches_nothing enc defNs cmp pp rf owner stored hn hns).1
+    rw [this] at h; cases h
 
 /-- every POST body carries exactly the apiVersion, kind, metadata.name (and namespace, when
     apiConfig names one) that apiConfig evaluates to — for every template, overlay list, overlay
